@@ -23,3 +23,5 @@ def run(rep):
     mr.rule_reset(rep, "C13.reset", classes=(mr.MQ,))
     ms.rule_parse_resets(rep, "C13.parsereset")
     mr.rule_sink(rep, "C13.sink", "C13.crlf", want=("crlf",))
+    # content lines are the scanner's physical lines: lines end at line feeds only
+    lr.rule_scanner(rep, "C13.physline", "C13.scan")
